@@ -97,4 +97,20 @@ PROPS = {
         assumptions=["the rollback window is what the property states: one committed batch of changes after the checkpoint, at most one GC pass in between; rollbacks of uncommitted-only changes are outside the quantifier and are not generated",
                      "simulated StorageAdapter only (storage key accounting needs the raw key set)"],
     ),
+    "C10": dict(
+        level="exploration", components=WMPT_COMPONENTS,
+        quick=dict(runs=48000, budget_s=90), thorough=dict(runs=3000000, budget_s=1200),
+        rule="a prover trie is built by a seeded history (in memory, committed/collapsed, or reloaded from storage; not updated afterwards; unique values). Honest half: for EVERY probed block (all b in 1..W for W<=128) the proof verifies on a fresh verifier and yields the trusted root (independent hasher), the owner's key and the owner's value. Adversarial half: the proof for one block travels over a channel as a list of node blobs; 0-3 structured tamperings drawn from a per-run random subset (swarm) of: re-weight two children of a branch keeping the sum, move all weight to a sibling (zero), swap sibling hashes, swap sibling entries, substitute a node by one from a proof for another block or from another trie, drop / duplicate / reorder / truncate elements, bit flips, change an embedded short-node or value weight, ask the verifier about another block. Oracle: if verification returns no error AND the returned hash equals the trusted root then the returned value must be the value of the true owner of the block the verifier was asked about. Non-trivial: >= 2 mutations and a proof made; faults_fired counts tamperings that actually changed the message",
+        state_measure="digest of (canonical weighted-trie shape of the content, collapse level of the commit)",
+        assumptions=["the trusted root is the root of the honest content (independent hasher = live Root(), checked); values are unique per key so a foreign value is attributable",
+                     "the adversary is structural (CBOR node level) plus bit flips; it does not search for hash collisions"],
+    ),
+    "C12": dict(
+        level="exploration", components=WMPT_COMPONENTS,
+        quick=dict(runs=48000, budget_s=90), thorough=dict(runs=3000000, budget_s=1200),
+        rule="a source trie of any shape (empty, single entry, shared-prefix root, branch root; 1-32 keys sharing prefixes of 0..63 nibbles) in memory (hashes computed first, as the package's users do), committed at collapse level 0/1/2/3/64, garbage collected or reloaded; a requested key set of size 0,1,2,3,5,9,10,11,12,16,24 (both sides of the >10 parallel-collection threshold; present and absent keys); GetPath -> channel (no faults) -> Deserialize into a trie without storage. Oracle: Deserialize succeeds; Root()/Weight() of the partial trie equal the source's; then up to 10 mirrored updates/deletes of requested keys are applied to both and after each one both return the same error-ness and Root()/Weight() stay equal (the partial trie must never need storage for a requested path). Non-trivial: >= 2 mutations and a commit or export",
+        state_measure="digest of (canonical weighted-trie shape of the content, collapse level of the commit)",
+        assumptions=["an in-memory source with uncommitted changes is hashed (GetRoot().CalcHash()) before GetPath, which is the protocol of the package's own tests; exporting from a never-hashed trie is outside the property",
+                     "no fault kind applies (fault-free configuration); malformed exports are C15's subject"],
+    ),
 }
